@@ -10,7 +10,9 @@
 (* offsets).  Evidence: every table with nv, nr in Counts^3 (observations   *)
 (* per variant / per locus; one copy = 10) x the region-depth vectors       *)
 (* Depths (planted from {1,1}, {1,4}, {4,4}, {1,1,+1}, and a noisy one).    *)
-(*   MC_BuildIndep.cfg        nv, nr in {0,10,20}^3, all 5 depth vectors    *)
+(*   MC_BuildIndep.cfg        nv, nr in {0,10,20}^3, depth vectors 1-4      *)
+(*   MC_BuildIndep_three.cfg  nv in {0,10,20}^3, nr in {10,20}^3, depth      *)
+(*                            vector 5 (three copies: ~1 s per run in TLC)   *)
 (*   MC_BuildIndep_quick.cfg  nv in {0,10,20}^3, nr in {10,20}^3, depth      *)
 (*                            vectors 1-4 (no three-copy structure)          *)
 (* Hazard cfgs (BuildFree must be VIOLATED): _genome_order, _refseq_anchor; *)
